@@ -64,7 +64,19 @@ def run(R, only=None):
     rnd = random.Random(R.seed)
     nbatch = 6 if R.tier == "quick" else 40
     per = 14
-    batches = only or [{"ops": gen_ops(rnd, per), "history": gen_ops(rnd, 10), "threads": 8, "seed": rnd.randrange(1 << 30)} for _ in range(nbatch)]
+    # every history contains a dump that fails AFTER array members were written, a load that passes an explicit trusted
+    # list over function nodes, and an audit whose result the caller then edits: the classic ways state leaks between calls
+    fixed_history = [["dumps", ["list", [["ndarray", "<f8", [3], "C", 1, False], ["sparse", "csr", [3, 4], 1], ["generatorobj"]]]],
+                     ["loads", {"schema": {"__class__": "list", "__module__": "builtins", "__loader__": "ListNode", "__id__": 1, "protocol": snap["protocol"],
+                                           "content": [{"__class__": "getcwd", "__module__": "os", "__loader__": "FunctionNode", "__id__": 2},
+                                                       {"__class__": "Probe", "__module__": "verif_canary_pkg", "__loader__": "TypeNode", "__id__": 3}]}, "members": []},
+                      ["os.getcwd", "verif_canary_pkg.Probe"]]]
+    fixed_ops = [["gut", {"schema": {"__class__": "list", "__module__": "builtins", "__loader__": "ListNode", "__id__": 1, "protocol": snap["protocol"],
+                                     "content": [{"__class__": "getcwd", "__module__": "os", "__loader__": "FunctionNode", "__id__": 2},
+                                                 {"__class__": "Probe", "__module__": "verif_canary_pkg", "__loader__": "TypeNode", "__id__": 3}]}, "members": []}],
+                 ["roundtrip", ["list", [["ndarray", "<f8", [3], "C", 1, False], ["sparse", "csr", [3, 4], 1]]]],
+                 ["after_failed_dump", ["list", [["ndarray", "<f8", [4], "C", 2, False], ["sparse", "csc", [2, 3], 2], ["masked", ["ndarray", "<i8", [3], "C", 3, False], 1]]]]]
+    batches = only or [{"ops": fixed_ops + gen_ops(rnd, per), "history": fixed_history + gen_ops(rnd, 10), "threads": 8, "seed": rnd.randrange(1 << 30)} for _ in range(nbatch)]
 
     def one(b):
         p = C.run_impl("impl_history.py", input_obj=b, timeout=1200)
@@ -91,6 +103,9 @@ def run(R, only=None):
             R.case({"op": op}, nontrivial=not (len(o["first"][i]) == 2 and str(o["first"][i][1]).startswith("exc:")))
             R.count("op:" + op[0])
             base = o["first"][i]
+            if op[0] == "after_failed_dump" and base != ["after_failed_dump", "same"]:
+                R.violation({"kind": "failed-call-leaks-into-next", "op": "dumps"}, f"after a dumps() that raised, dumping an object that shares arrays with the failed one gave {base}",
+                            {"batch": b, "index": i})
             if o["after_history"][i] != base:
                 R.violation({"kind": "history-dependent", "op": op[0]}, f"{op[0]} gave {str(o['after_history'][i])[:200]} after a history of other calls, {str(base)[:200]} when called first",
                             {"batch": b, "index": i})
